@@ -65,6 +65,54 @@ CHECKS = {
    text="The emitted rope of the first pass is re-tokenised (decoder contract) and fed through the real redactor again with the same symbolic flags; the solver shows second output == first output on every path.",
    note="Bounds: corpus + odd-shape corpus; quick assumes non-empty literals; replacement text not e-mail shaped and not starting with '$'; namespaces / field-name pseudonymisation off (as the property states).",
    ref="6/C19"),
+
+ "C06": dict(
+   text="processMongoLogStream / ProcessMongoLogFile / ProcessMongoLogFileFromReader are executed on a sequence of k lines whose kinds (symbolic command line, other-component line, blank, whitespace, non-JSON) are chosen by the solver; the write events must equal, in order, what each line yields on its own; "
+        "all four channels and bar nil/present are compared; the pseudonym side table starts with an arbitrary entry and the option globals are shown unchanged (inductive step for logs of any length).",
+   note="Bounds: k = 2 (thorough 3), 3 line triples. bufio.Scanner / gzip are contract stubs (line list; CRLF and final newline are ScanLines' documented behaviour). Real gzip, OS pipes/files are outside.",
+   ref="6/C06"),
+ "C07": dict(
+   text="Every odd-shape template (unexpected value kinds under $date/$oid/$binary and under arbitrary keys colliding with the operator vocabulary, nulls, empty/nested arrays) is run through the stream loop in placeholder, field-name and selective mode; every implicit panic site "
+        "(type assertion, index, nil dereference) on a feasible path is an obligation; malformed neighbours (11 kinds) must not stop the following ordinary line; an over-long line must yield an error and nothing of it.",
+   note="Bounds: odd corpus (quick 60 / thorough 300+ templates) + 2 garbage jobs. Outside: encrypt mode, nesting deeper than the templates (stack exhaustion), byte-level tokenizer behaviour.",
+   ref="6/C07"),
+ "C08": dict(
+   text="Fault positions are solver choices: the k-th Write fails (k=1..3), the read fails after 1..3 lines, bad gzip header, open error, read error inside gzip. Shown: a non-nil error is returned, no write is attempted after a failed one, and what was written is a prefix of whole expected lines.",
+   note="Bounds: 3 object lines, 2 line pairs. Outside: short writes inside the OS, Close errors, byte-level gzip corruption (gzip reader's error reporting is its contract); the CLI's mapping of the error to exit status 1 is covered by C18's harness only structurally.",
+   ref="6/C08"),
+ "C09": dict(
+   text="redactString in encrypt mode -> key file content as WriteKeyToFile stores it -> ReadKeyFromFile -> base64 decode -> Decrypt is executed with symbolic plaintext and key; the solver shows the result equals the plaintext. "
+        "The real encoding/base64 code is executed on symbolic bytes (lengths 0..6) and shown to round-trip. 'Never a wrong plaintext' is shown in the SIV sense: whatever Decrypt accepts (another key, arbitrary bytes) re-encrypts to the given ciphertext.",
+   note="tink AEAD, keyset handle and protobuf are uninterpreted functions with Dec(Enc(m))=m, len(Enc)=len(m)+16, Dec-ok => Enc(Dec(c))=c. NOT decided: that a different key / altered ciphertext is *rejected* (authenticity of AES-SIV is a cryptographic claim). The cobra wiring of `decrypt` is not executed.",
+   ref="6/C09"),
+ "C10": dict(
+   text="Each template is run in placeholder and encrypt mode on the same symbolic line: every string leaf placeholder mode replaces must decrypt to the input leaf, every other position must be equal; a repeated run must be byte-identical; different / equal plaintexts give different / equal ciphertexts; "
+        "with unusable key material (any length but 64) no literal may appear in any output segment.",
+   note="Bounds: every third corpus template (thorough: all), replacement text fixed, non-empty literals. Same crypto contracts as C09.",
+   ref="6/C10"),
+ "C11": dict(
+   text="The real main() is run three times in a row over one symbolic file system with --encrypt, file input and output and an arbitrary key path whose initial state the solver picks (absent / file with arbitrary content / directory / unreadable). "
+        "Event-log obligations: absent => exactly one WriteFile(path, base64 of 64 fresh random bytes, 0600) before any processing, later runs load exactly that key and write nothing; existing => never written/removed, a run proceeds only if the content base64-decodes to 64 bytes and uses exactly those bytes; unusable => non-zero exit, no processing. A second job shows generate -> store -> read back returns the same key.",
+   note="Processing calls are cut into events. Outside: quality of crypto/rand (distinct keys), umask/ACLs, concurrent runs. Violations of this check are engine-level (not replayed through the CLI).",
+   ref="6/C11"),
+ "C16": dict(
+   text="DownloadClusterLogs runs against a fake endpoint that is harness code executed symbolically as the base transport; every answer (challenge or not, statuses, transport errors, cut bodies, unparsable descriptions) is a solver choice. On success the recorded requests must equal, in order, the cluster lookup and one download per host "
+        "(ports stripped, given window, https://cloud.mongodb.com), each preceded by at most its unauthenticated twin; temp file i holds exactly body i. A main()-level job shows file i is redacted into <outputFile>.<i> and that the download is called with the flags / environment and the default seven-day window.",
+   note="Bounds: 1..2 hosts (thorough 3). digest.Transport, connstring.Parse, net.SplitHostPort, json.Unmarshal are contract stubs (see evidence). The redaction of each file is ProcessMongoLogFile (C06).",
+   ref="6/C16"),
+ "C17": dict(
+   text="Same harness: on every failing path of DownloadClusterLogs (any fault kind at any host) the set created-by-CreateTemp minus removed must be empty; the main()-level job shows that every way out of the redact command after a successful download (return, or exit from the per-file loop on unwritable output / count failure / redaction failure) has removed all downloaded files.",
+   note="Bounds as C16; faults are solver choices. Outside: process killed by a signal, os.Remove failing.",
+   ref="6/C17"),
+ "C18": dict(
+   text="The real main() and Run closure are executed with all 16 flag variables, the argument count, stdin mode and both environment variables symbolic (cobra/pflag stubbed at the binding boundary). For every path: reaching a processing call implies NOT must_reject(flags); an exit before it implies non-zero status, a stderr message, NOT must_accept(flags), and no file / key / network side effect before it. "
+        "Option globals are shown equal to their flags when processing starts (flag wiring of C01). Counterexamples are replayed through the freshly built CLI.",
+   note="The acceptance rule is written from the property text (engine/props_cli.go). Combinations the documentation does not settle (--encrypt with Atlas mode) are in neither set. Exits that depend on the environment (failed create, key file content) are not 'flags alone'.",
+   ref="6/C18"),
+ "C20": dict(
+   text="Same harness as C16: no recorded request line / header (other than the digest response, whose hash is the only term allowed to depend on the private key), nothing written to stdout/stderr and no returned error message may depend on the private key outside the digest hash - a taint-style dependency check on the symbolic terms, which covers verbatim, URL-encoded and base64 forms; without a challenge no request carries any Authorization.",
+   note="The digest library's own code is behind a contract (password only inside the hash); Basic-auth fallbacks, keys in error messages or URLs added by the repository's code are caught. Output files are not produced by the download code. Outside: a server echoing the secret, process memory.",
+   ref="6/C20"),
 }
 
 NOT_YET = {
